@@ -6,14 +6,19 @@ package g10lib
 
 import (
 	"context"
+	dsql "database/sql"
 	"encoding/hex"
 	"fmt"
+	"net"
 	"os"
 	"os/exec"
 	"sort"
 	"strings"
+	"sync/atomic"
 	"time"
 
+	"github.com/dolthub/go-mysql-server/memory"
+	"github.com/dolthub/go-mysql-server/server"
 	"github.com/dolthub/go-mysql-server/sql"
 	"github.com/dolthub/go-mysql-server/sql/types"
 
@@ -332,4 +337,65 @@ func ChildHangs(mode string, limit time.Duration) (string, string) {
 		return "spawn-error", err.Error()
 	}
 	return "exit:0", string(out)
+}
+
+// ---- server start with collision-safe ports ----
+
+var portCounter uint32
+
+// StartServer starts a TCP server for the engine like core's Eng.StartServer, but never through
+// sql.GetEmptyPort: the engine listens with SO_REUSEPORT, so two servers that were handed the same
+// "empty" port (a race between concurrently starting cases, or with another process) would both
+// listen on it and clients would be spread over two unrelated engines. Ports are taken from a range
+// below the ephemeral range, per-process offset plus a counter, and probed with a plain listener
+// (which fails while anything, SO_REUSEPORT or not, is bound to the port). The returned *sql.DB is
+// pinned to one connection whose identity was verified against a marker table created in-process.
+func StartServer(e *core.Eng, params string) (*core.Srv, *dsql.DB, error) {
+	var lastErr error
+	for try := 0; try < 40; try++ {
+		n := atomic.AddUint32(&portCounter, 1)
+		port := 12000 + int((uint32(os.Getpid())*7919+n*3)%18000)
+		l, err := net.Listen("tcp", fmt.Sprintf("127.0.0.1:%d", port))
+		if err != nil {
+			lastErr = err
+			continue
+		}
+		l.Close()
+		cfg := server.Config{Protocol: "tcp", Address: fmt.Sprintf("127.0.0.1:%d", port)}
+		s, err := server.NewServer(cfg, e.E, sql.NewContext, memory.NewSessionBuilder(e.Pro), nil)
+		if err != nil {
+			lastErr = err
+			continue
+		}
+		go func() { _ = s.Start() }()
+		srv := &core.Srv{Eng: e, S: s, Addr: cfg.Address, Port: port}
+		marker := fmt.Sprintf("zz_marker_%d_%d", os.Getpid(), n)
+		ms := e.NewSess()
+		if r := ms.Exec("CREATE TABLE " + marker + " (x INT PRIMARY KEY)"); r.Failed() {
+			s.Close()
+			return nil, nil, fmt.Errorf("marker: %v", r.Err)
+		}
+		var db *dsql.DB
+		ok := false
+		for i := 0; i < 300 && !ok; i++ {
+			db, err = srv.Open("root", "", params)
+			if err == nil {
+				var cnt int
+				err = db.QueryRow("SELECT COUNT(*) FROM " + marker).Scan(&cnt)
+				if err == nil {
+					ok = true
+					break
+				}
+				db.Close()
+			}
+			lastErr = err
+			time.Sleep(10 * time.Millisecond)
+		}
+		ms.Exec("DROP TABLE " + marker)
+		if ok {
+			return srv, db, nil
+		}
+		s.Close()
+	}
+	return nil, nil, fmt.Errorf("server did not start: %v", lastErr)
 }
